@@ -62,6 +62,8 @@ SecRule REQUEST_METHOD "@unconditionalMatch" "id:36,phase:2,pass,nolog"
 SecRule REQUEST_HEADERS_NAMES "@unconditionalMatch" "id:37,phase:2,pass,nolog"
 SecRule REQUEST_BODY_LENGTH "@unconditionalMatch" "id:38,phase:2,pass,nolog"
 SecRule &ARGS "@unconditionalMatch" "id:39,phase:2,pass,nolog"
+SecRule FILES_SIZES "@unconditionalMatch" "id:40,phase:2,pass,nolog"
+SecRule FILES_COMBINED_SIZE "@unconditionalMatch" "id:41,phase:2,pass,nolog"
 SecRule REQBODY_ERROR|MULTIPART_STRICT_ERROR|URLENCODED_ERROR|INBOUND_DATA_ERROR "!@eq 0" "id:20,phase:2,pass,nolog"
 `
 
@@ -484,14 +486,25 @@ func C03(run *vf.Run) {
 					fw, _ := mw.CreateFormField(string(p.N))
 					_, _ = fw.Write(p.V)
 				}
-				var files, fnames [][2]string
-				if !strings.ContainsAny(string(c.Pairs[0].V), "\"\r\n\xff") {
-					// the first pair once more as an uploaded file: field name -> file name
-					fw, _ := mw.CreateFormFile(string(c.Pairs[0].N), "f"+string(c.Pairs[0].V))
-					_, _ = fw.Write([]byte("content"))
+				var files, fnames, fsizes [][2]string
+				total := 0
+				for _, p := range c.Pairs {
+					total += len(p.V)
+				}
+				for i, p := range c.Pairs {
+					if strings.ContainsAny(string(p.V), "\"\r\n\xff") {
+						continue
+					}
+					// every pair once more as an uploaded file: field name -> form name, "f"+value -> file name,
+					// a content whose length tells the files apart (pairs with equal values share a file name)
+					fw, _ := mw.CreateFormFile(string(p.N), "f"+string(p.V))
+					content := strings.Repeat("c", 3*(i+1))
+					_, _ = fw.Write([]byte(content))
+					total += len(content)
 					// (coraza keeps FILES and FILES_NAMES as flat lists under the empty key; only the values are the property's business)
-					files = [][2]string{{"", "f" + string(c.Pairs[0].V)}}
-					fnames = [][2]string{{"", string(c.Pairs[0].N)}}
+					files = append(files, [2]string{"", "f" + string(p.V)})
+					fnames = append(fnames, [2]string{"", string(p.N)})
+					fsizes = append(fsizes, [2]string{"f" + string(p.V), strconv.Itoa(len(content))})
 				}
 				mw.Close()
 				got, info, p := c03Run(w, "/p", nil, mw.FormDataContentType(), mb.Bytes())
@@ -500,6 +513,8 @@ func C03(run *vf.Run) {
 				} else if info == "" { // a part the MIME reader refuses is flagged by MULTIPART_STRICT_ERROR / REQBODY_ERROR
 					check(c, "multipart", got, 12, "FILES", files)
 					check(c, "multipart", got, 13, "FILES_NAMES", fnames)
+					check(c, "multipart", got, 40, "FILES_SIZES", fsizes)
+					check(c, "multipart", got, 41, "FILES_COMBINED_SIZE", [][2]string{{"", strconv.Itoa(total)}})
 					check(c, "multipart", got, 2, "ARGS_POST", kv)
 					check(c, "multipart", got, 6, "ARGS_POST_NAMES", names)
 				}
